@@ -1,6 +1,8 @@
 import io
 from typing import BinaryIO, Iterable, Optional, Union
 
+import numpy as np
+
 from ._pointappender import IPointAppender
 from .compression import LazBackend
 from .errors import LaspyException
@@ -67,6 +69,9 @@ class LasAppender:
 
         :param points: The points to append
         """
+        if not points:
+            return
+
         if points.point_format != self.header.point_format:
             raise LaspyException("Point formats do not match")
 
@@ -77,6 +82,12 @@ class LasAppender:
                     len(points), self.header.point_count, self.header.max_point_count()
                 )
             )
+
+        if self.header.point_count == 0:
+            # the extrema of an empty file are zeros, not values to grow from
+            f64info = np.finfo(np.float64)
+            self.header.maxs = np.ones(3, dtype=np.float64) * f64info.min
+            self.header.mins = np.ones(3, dtype=np.float64) * f64info.max
 
         self.points_appender.append_points(points)
         self.header.grow(points)
